@@ -106,6 +106,9 @@ func (x *Exec) typeAssert(fr *Frame, st *State, in *ssa.TypeAssert) Value {
 		res = x.unbox(fr, st, iv, in.AssertedType)
 	}
 	okT = x.vc.Name(okT, "taok")
+	if x.poolVals[iv.Tag.S] {
+		x.assume(st, okT)
+	}
 	if in.CommaOk {
 		// on failure the value is the zero value
 		z := x.zero(in.AssertedType)
